@@ -67,19 +67,20 @@ type laSim struct {
 	busy    map[string]bool
 
 	// expectations
-	mMetric   map[string]*metricSnap           // last delivered NodeMetric per node
-	mAssign   map[string]map[string]*mAssigned // node -> uid -> expected cache entry (event semantics)
-	assumed   map[string]string                // uid -> node: reserved by the scheduler, binding not yet confirmed by the informer
-	podBusy   map[string]bool
-	inflight  map[string]int // node -> operations in progress that may change the node's cache state
-	ver       map[string]int // node -> number of completed state-changing operations
-	cleanups  map[string]int // node -> how often the node's entry was emptied
-	addRecs   map[string][]*addRec
-	schedQ    []laOp
-	bindQ     []*bindTask
-	apiDone   bool
-	burst     int
-	lastBurst bool
+	mMetric     map[string]*metricSnap           // last delivered NodeMetric per node
+	mAssign     map[string]map[string]*mAssigned // node -> uid -> expected cache entry (event semantics)
+	assumed     map[string]string                // uid -> node: reserved by the scheduler, binding not yet confirmed by the informer
+	podBusy     map[string]bool
+	inflight    map[string]int // node -> operations in progress that may change the node's cache state
+	ver         map[string]int // node -> number of completed state-changing operations
+	cleanups    map[string]int // node -> how often the node's entry was emptied
+	afterRemove func(n string) // set by mutate around model(): called by a model step right after it removed a pod from node n
+	addRecs     map[string][]*addRec
+	schedQ      []laOp
+	bindQ       []*bindTask
+	apiDone     bool
+	burst       int
+	lastBurst   bool
 }
 
 func ptrBool(b bool) *bool { return &b }
@@ -458,9 +459,19 @@ func (s *laSim) mutate(nodes []string, addNode, addKey string, real func(), mode
 		}
 		wasEmpty[n] = s.emptyBut(n, during[n])
 	}
-	model()
-	for _, n := range nodes {
+	// An update that replaces the pod on its node (new uid, same node) removes the old pod and places the new one within
+	// ONE call: when the old pod was the entry's only content, the entry is emptied and removed in the middle of the call
+	// although it is non-empty before and after it.
+	midEmptied := map[string]bool{}
+	s.afterRemove = func(n string) {
 		if !wasEmpty[n] && s.emptyBut(n, during[n]) {
+			midEmptied[n] = true
+		}
+	}
+	model()
+	s.afterRemove = nil
+	for _, n := range nodes {
+		if !wasEmpty[n] && (s.emptyBut(n, during[n]) || midEmptied[n]) {
 			s.cleanups[n]++
 			// adds that completed while this (emptying) call was in progress saw one more deletion of the entry
 			for _, rec := range s.addRecs[n][addsBefore[n]:] {
@@ -574,6 +585,9 @@ func (s *laSim) deliverPod(ev laEvent) {
 			s.view[p.Name] = p
 			if o.UID != p.UID || (o.Node != "" && o.Node != p.Node) {
 				s.mRemove(o.Node, o.UID)
+				if s.afterRemove != nil && o.Node != "" {
+					s.afterRemove(o.Node)
+				}
 			}
 			// once the informer shows the pod on the node it was assumed on, the pod's presence there follows the informer
 			if o.Node != "" && s.assumed[o.UID] == o.Node {
